@@ -27,7 +27,7 @@ IMPORTANT: prefer a change that needs something SPECIFIC to manifest - a particu
 Deliverables (all inside {wt}):
  1. The source change itself, left applied in the worktree (do not commit).
  2. {wt}/demo.py: a small stand-alone program (asyncio; run as `PYTHONPATH={wt}/src /venv/bin/python {wt}/demo.py`) that demonstrates the violation: it must exit with status 1 (printing what went wrong) WITH your change, and exit 0 on the unchanged library. Always wrap waits in timeouts (asyncio.wait_for) so it can never hang; it should finish within ~10 seconds.
- 3. Verify yourself: (a) the test-suite passes with the change (112 passed); (b) demo.py exits 1 with the change; (c) `git -C {wt} stash` then demo.py exits 0, then `git -C {wt} stash pop` to restore your change.
+ 3. Verify yourself: (a) the test-suite passes with the change (112 passed); (b) demo.py exits 1 with the change; (c) save your change as a patch file (`git -C {wt} diff -- src > {wt}/change.patch`), undo it with `git -C {wt} apply -R {wt}/change.patch`, check that demo.py exits 0, then restore it with `git -C {wt} apply {wt}/change.patch`. Do NOT use `git stash` (the stash is shared with other worktrees of this repository).
  4. Finish by replying with: the unified diff of your change (`git -C {wt} diff -- src`), a 2-4 sentence explanation of why it breaks the property and what is needed for it to manifest, and the outputs of your three verification steps.
 
 Note: the current tree may already contain known imperfections with respect to some properties (e.g. a task cancelled before it ever ran is not cleaned up; pool_size getter/setter are crude; the control-server argument parser cannot yet register pool classes because of string annotations). Do not rely on those; your change must introduce a NEW violation that your demo shows and that disappears when your change is reverted.""")
